@@ -10,7 +10,7 @@
    search on a finite map.  [observe] keeps the valid part of every returned column. *)
 From Coq Require Import List Arith Bool QArith Qcanon Lia.
 From PV Require Import C05.Model C05.Spec C05.ProofsNum C05.ProofsSpec C05.ProofsModel
-  C05.ProofsSearch C05.ProofsMass C05.ProofsExact C05.ProofsRefine C05.ProofsSanity C05.Proofs.
+  C05.ProofsSearch C05.ProofsMass C05.ProofsExact C05.ProofsRefine C05.ProofsSanity C05.ProofsTopk C05.Proofs.
 Import ListNotations.
 Local Open Scope nat_scope.
 
@@ -184,6 +184,14 @@ Theorem c05_element_independent_of_padding_frames : forall V width fus lm len fr
   = observe (search V width fus lm len (firstn len frames) choices).
 Proof. exact element_independent. Qed.
 Print Assumptions c05_element_independent_of_padding_frames.
+
+(* the hypothesis [choices_ok] of the theorems above can be met for EVERY input: the model's own
+   stable selection (Model.auto_choices) is a legitimate topk answer at every frame *)
+Theorem c05_admissible_choices_exist : forall V width fus lm len frames, 1 <= width ->
+  choices_ok V width fus lm 0%Qc len 0 frames
+    (auto_choices V width fus lm len 0 frames init_beam) init_beam = true.
+Proof. exact auto_choices_ok_init. Qed.
+Print Assumptions c05_admissible_choices_exist.
 
 (* ---- non-vacuity: concrete inputs meeting the hypotheses --------------------------------------- *)
 
